@@ -404,6 +404,37 @@ def f14(ctx, rid):
     c05.v9(ctx, rid)
 
 
+def f15(ctx, rid):
+    """`once the fault clears the storage accepts further operations`: the leftover of a failed index dump is replaced by the
+    next dump because the index is built with the configured `recreate_index_file` permission.  Wherever index parameters are
+    constructed, the `recreate` parameter receives that configuration field (and nothing else does) - two positional bools
+    swapped make the permission follow `bloom filter configured`, and without a bloom filter a torn index file blocks every
+    later dump and every later start"""
+    prog = ctx.prog
+    n = 0
+    for f in prog.fns.values():
+        for c in f.calls:
+            if c.bb not in f.reachable() or c.name != 'new' or not any(t.endswith('IndexParams::new') for t in prog.resolve(c) if t in prog.fns):
+                continue
+            callee = [prog.fns[t] for t in prog.resolve(c) if t in prog.fns][0]
+            for i, a in enumerate(c.args):
+                pname = callee.debug_name(i + 1) or ''
+                lv = core.scalar_leaves(prog, f, a, depth=0)
+                has_cfg = ('field', 'recreate_index_file') in lv
+                if 'recreate' not in pname and not has_cfg:
+                    continue
+                n += 1
+                key = 'recreate-permission-is-the-configured-one|%s|%s' % (prog.fns[f.id].root, pname)
+                if 'recreate' in pname and has_cfg:
+                    ctx.ok(rid, key, c.where(), 'parameter `%s` receives config.recreate_index_file' % pname)
+                elif 'recreate' in pname:
+                    ctx.bad(rid, key, c.where(), 'the `%s` parameter of the index parameters is given %s instead of the configured recreate_index_file: an existing (torn) index file can not be replaced, every later dump of that blob and every later start fails' % (pname, sorted(str(x) for x in lv)[:3]))
+                else:
+                    ctx.bad(rid, key, c.where(), 'config.recreate_index_file is handed to the parameter `%s` of the index parameters (positional arguments swapped?)' % pname)
+    if n < 1:
+        raise core.AnchorLost('constructions of IndexParams with a recreate parameter: %d' % n)
+
+
 RULES = [
     Rule('C11.X3', 'no err-exit is reachable between a move-out of shared state and its hand-back', x3, 4),
     Rule('C11.L1', 'an error while handling a worker message never ends the maintenance loop (C13.L1 instances)', l1, 4),
@@ -418,5 +449,6 @@ RULES = [
     Rule('C11.F12', 'an index is dumped with the same notion of blob size it is later loaded and validated against', f12, 2),
     Rule('C11.F13', 'a per-operation registration in a shared collection is removed on every exit, error exits included', f13, 1),
     Rule('C11.F14', 'the configured data-validation flag reaches every blob opened at start-up (C05.V9 instances)', f14, 3),
+    Rule('C11.F15', 'the recreate permission of the index parameters is the configured recreate_index_file', f15, 1),
     Rule('C11.F6', 'an index file cut short by a failed dump is never trusted: written flag set in a second phase, extent checked at open (C03.I8/I5 instances)', f6, 2),
 ]
